@@ -4,7 +4,7 @@ from . import _ecell_prop as E
 
 PID = 'C05'
 PROFILE = {'identity': 0.9, 'once': 0.25, 'blacklist': 0.3, 'failure': 0.5, 'pressure': 0.7, 'raw_remove': 0.1,
-           'few_shapes': 0.7, 'scenarios': 0.6, 'affinity': 0.2, 'traits': 0.5}
+           'few_shapes': 0.7, 'scenarios': 0.6, 'affinity': 0.2, 'traits': 0.5, 'renew': 0.3, 'lease': 0.4, 'partitions': 0.5}
 
 
 def run(tier, seed):
